@@ -21,7 +21,6 @@ from .c14_lib import (
     merge_random,
     merge_round_robin,
     merge_sequential,
-    qint,
     stream_layout,
 )
 from .frames import enc_varint
@@ -44,16 +43,6 @@ def control_stream(sender_is_client, pairs=((1, 4096), (7, 16)), max_push=8, ext
     if sender_is_client and max_push is not None:
         b += h3frame(T_MAX_PUSH_ID, enc_varint(max_push))
     return b + extra
-
-
-def ids(recv_client):
-    """stream id allocators for the *sender* (the peer of the receiver under test)."""
-    sender_is_client = not recv_client
-    return {
-        "uni": 2 if sender_is_client else 3,
-        "bidi_own": 0 if sender_is_client else 1,  # streams the sender initiates
-        "bidi_req": 0,  # client-initiated request streams (responses travel on them too)
-    }
 
 
 class Alloc:
